@@ -736,8 +736,11 @@ def c02(sess):
                 ready = [s["id"] for s in st["staged"] if s["ready"] and not s.get("completed")]
                 if ready:
                     out.append({"what": "workflow succeeded while tasks are waiting to run: %r" % ready, "step": i})
-                if infl:
-                    out.append({"what": "workflow succeeded while %d action(s) are in flight" % len(infl), "step": i})
+                # dormant (paused / pending) item actions do not keep a with-items task from completing -- the
+                # engine's rule, the same notion of "in flight" as in the paused / canceled clauses below
+                act0 = sess.active_log[i] if hasattr(sess, "active_log") else infl
+                if act0:
+                    out.append({"what": "workflow succeeded while %d action(s) are in flight" % len(act0), "step": i})
                 unhandled = [r["id"] for _, r in recs if r.get("status") in ABENDED and not any(r["next"].values())
                              and r["id"] not in COMMANDS]
                 if unhandled:
